@@ -23,6 +23,17 @@ ARQ = ("Modelled, not verified: f64 rounding (exact integer lengths, multiples o
        "unbounded recursion, adequacy is a theorem under the arena invariant (depth < size by pigeonhole); stack depth on extremely deep trees. ")
 
 CLAIMS = {
+ "C15": dict(
+   text="Kernel-checked theorems over exact rationals on the abstract agglomeration state (active indices, distances, ghost member lists, heights): the code's "
+        "size-weighted update is average linkage of the merged cluster; one step of the code (reuse index a, retire b, weighted update) keeps every live distance equal to the "
+        "average of the ORIGINAL distances between the two clusters it joins; merging a minimal pair keeps merge heights monotone and makes both new branch lengths non-negative; "
+        "a weighted mean is at least the smaller value (reducibility). PARTIAL: the refinement from the transcribed loop (triangular vector, retired rows, first minimum in cell "
+        "order, tree assembly) to that abstract step, the equidistance bookkeeping and recovery of ultrametric inputs are decided by running the exact rational transcription "
+        "against the crate on every case (topology, child order, names, lengths exactly whenever every intermediate value is dyadic — ties included — else 1e-9; cases where a tie or a "
+        "margin below 1e-6 would be decided by rounding are not compared) and by oracles on the real result: well-formed arena incl. depths, rooted binary, leaves = taxa, equidistant "
+        "leaves, non-negative lengths, naive average-linkage clustering from its definition whenever unambiguous, reproduction of ultrametric inputs.",
+   note=NOTE + "Modelled, not verified: f64 rounding (exact Rat in the model); 'non-negative' is read as finite non-negative (integer entries).",
+   technique="Lean 4 proofs of the average-linkage step invariants over Rat + differential execution of an exact rational transcription of the UPGMA loop", ref="5 C15"),
  "C08": dict(
    text="Kernel-checked theorems, for every tree shape and every assignment of lengths: the contributions the fast algorithm adds into the triangular vector, written by "
         "structural recursion on the rose tree with the per-node leaf-distance caches, are keyed by every pair of leaves exactly once and each equals the textbook path length "
